@@ -182,22 +182,28 @@ Fixpoint e_ret (r : ret) : tr :=
 Definition e_outcome (o : outcome) : tr :=
   match o with Ok r => L [I 0; e_ret r] | Err e => L [I 1; I (e_err e)] end.
 
-Fixpoint run_steps (st : state) (ops : list sop) : list tr :=
+Fixpoint run_steps (q : quirks) (st : state) (ops : list sop) : list tr :=
   match ops with
   | [] => []
-  | o :: r => let '(st', out) := step st o in L [e_outcome out; e_snapshot st'] :: run_steps st' r
+  | o :: r => let '(st', out) := step q st o in L [e_outcome out; e_snapshot st'] :: run_steps q st' r
+  end.
+Definition d_quirks (t : tr) : option quirks :=
+  match t with
+  | L [] => Some (mkQuirks false)
+  | L (b :: _) => do b' <- dbool b; Some (mkQuirks b')
+  | _ => None
   end.
 
 Definition run (c : tr) : tr :=
   match c with
-  | L [_; L lits; L steps] =>
-      match dall (d_lit 64) lits, dall d_step steps with
-      | Some ls, Some ops =>
+  | L [qs; L lits; L steps] =>
+      match d_quirks qs, dall (d_lit 64) lits, dall d_step steps with
+      | Some q, Some ls, Some ops =>
           if forallb lit_valid ls then
             let st0 := init_forest ls empty_state in
-            L [e_snapshot st0; L (run_steps st0 ops)]
+            L [e_snapshot st0; L (run_steps q st0 ops)]
           else ebad
-      | _, _ => ebad
+      | _, _, _ => ebad
       end
   | _ => ebad
   end.
